@@ -33,7 +33,17 @@ fn lc<A: Subject>(x: &A) -> Option<(usize, usize)> {
     guarded(|| (x.len(), x.capacity())).ok()
 }
 
-fn attempt<A: Subject + AllPairs>(op: &str, a: &Spec, grow: usize, operand_ty: usize, index: usize) -> (Expect, Result<Outcome, crate::exec::PanicInfo>) {
+/// fill patterns for the bits an operation adds: 0 all zeros, 1 all ones, 2 alternating from one, 3 alternating from zero
+fn fill(pattern: usize, i: usize) -> Bit {
+    bit(match pattern % 4 {
+        0 => false,
+        1 => true,
+        2 => i % 2 == 0,
+        _ => i % 2 == 1,
+    })
+}
+
+fn attempt<A: Subject + AllPairs>(op: &str, a: &Spec, grow: usize, operand_ty: usize, index: usize, pattern: usize) -> (Expect, Result<Outcome, crate::exec::PanicInfo>) {
     let cap = A::FIXED_CAP.expect("HARNESS-ERROR: C19 runs on fixed types only");
     let n = a.bits.len();
     let over = n + grow; // the length the operation would produce
@@ -98,7 +108,7 @@ fn attempt<A: Subject + AllPairs>(op: &str, a: &Spec, grow: usize, operand_ty: u
         "try_from_vector" => {
             // a longer vector of another implementation
             let len = cap + grow;
-            (Expect::Err, guarded(|| match A::try_from_ones_of(operand_ty, len) {
+            (Expect::Err, guarded(|| match A::try_from_longer(operand_ty, len, pattern) {
                 None => panic!("HARNESS-SKIP"),
                 Some(Ok((l, c))) => Outcome::ReturnedOk(Some((l, c))),
                 Some(Err(_)) => Outcome::ReturnedErr,
@@ -107,8 +117,8 @@ fn attempt<A: Subject + AllPairs>(op: &str, a: &Spec, grow: usize, operand_ty: u
         "push" => {
             let mut x = av.clone();
             (Expect::Panic, guarded(move || {
-                for _ in 0..grow {
-                    x.push(Bit::One);
+                for i in 0..grow {
+                    x.push(fill(pattern, i));
                 }
                 Outcome::Returned(lc(&x))
             }))
@@ -120,7 +130,7 @@ fn attempt<A: Subject + AllPairs>(op: &str, a: &Spec, grow: usize, operand_ty: u
                 if sx {
                     x.sign_extend(n + grow)
                 } else {
-                    x.resize(n + grow, Bit::One)
+                    x.resize(n + grow, fill(pattern, 0))
                 }
                 Outcome::Returned(lc(&x))
             }))
@@ -133,7 +143,7 @@ fn attempt<A: Subject + AllPairs>(op: &str, a: &Spec, grow: usize, operand_ty: u
                     if B::FIXED_CAP.map_or(false, |c| grow > c) {
                         panic!("HARNESS-SKIP");
                     }
-                    let b: B = build_set(&vec![true; grow]);
+                    let b: B = build_set(&(0..grow).map(|i| unbit(fill(pattern, i))).collect::<Vec<bool>>());
                     match op.as_str() {
                         "append" => x.append(&b),
                         "prepend" => x.prepend(&b),
@@ -146,12 +156,12 @@ fn attempt<A: Subject + AllPairs>(op: &str, a: &Spec, grow: usize, operand_ty: u
         "extend" => {
             let mut x = av.clone();
             (Expect::Panic, guarded(move || {
-                x.extend_bits((0..grow).map(|i| bit(i % 2 == 0)));
+                x.extend_bits((0..grow).map(|i| fill(pattern, i)));
                 Outcome::Returned(lc(&x))
             }))
         }
         "collect" => (Expect::Panic, guarded(|| {
-            let x = A::collect_bits((0..cap + grow).map(|i| bit(i % 2 == 0)));
+            let x = A::collect_bits((0..cap + grow).map(|i| fill(pattern, i)));
             Outcome::Returned(lc(&x))
         })),
         // ---- index checks (documented to panic; implemented with debug_assert) ----
@@ -186,10 +196,12 @@ fn judge_overflow<A: Subject + AllPairs>(ctx: &mut Ctx, case: &Case, wl: &str) {
     let grow = case.usize("grow");
     let oty = case.usize("oty");
     let index = case.usize("index");
+    let pattern = case.opt("pat").map_or(1, |p| p.parse().expect("HARNESS-ERROR: pat"));
     let cap = A::FIXED_CAP.unwrap();
     let n = a.bits.len();
-    let h = sig_hash(&[A::IDX as u64, 1900, model::hash64(op.as_bytes()), grow as u64, oty as u64, index as u64, n as u64, model::hash_bits(&a.bits)]);
-    let (expect, r) = attempt::<A>(op, &a, grow, oty, index);
+    let h = sig_hash(&[A::IDX as u64, 1900, model::hash64(op.as_bytes()), grow as u64, oty as u64, index as u64, pattern as u64, n as u64, model::hash_bits(&a.bits)]);
+    let (expect, r) = attempt::<A>(op, &a, grow, oty, index, pattern);
+    ctx.bucket(&format!("fill-pattern:{}", pattern % 4));
     if let Err(p) = &r {
         if p.0.starts_with("HARNESS-SKIP") {
             return;
@@ -319,12 +331,20 @@ pub fn run(ctx: &mut Ctx) {
         let empty = Spec::set(ty, vec![]);
         for op in ctor_ops {
             for grow in [1usize, 2, 7, 8, 9, w, w + 1, cap, 1000] {
-                judge(ctx, &Case::new("overflow").with("a", empty.enc()).with("op", op).with("grow", grow).with("oty", 0).with("index", 0), "W-constructors-beyond-capacity");
+                for pat in 0..4 {
+                    if pat != 1 && op != "collect" {
+                        continue;
+                    }
+                    judge(ctx, &Case::new("overflow").with("a", empty.enc()).with("op", op).with("grow", grow).with("oty", 0).with("index", 0).with("pat", pat), "W-constructors-beyond-capacity");
+                }
             }
         }
         for oty in 0..NTYPES {
             for grow in [1usize, 2, 8, 64, 65] {
-                judge(ctx, &Case::new("overflow").with("a", empty.enc()).with("op", "try_from_vector").with("grow", grow).with("oty", oty).with("index", 0), "W-conversions-beyond-capacity");
+                // pattern 0: all zeros, 1: all ones, 2: only bit 0 set, 3: only the top bit set
+                for pat in 0..4 {
+                    judge(ctx, &Case::new("overflow").with("a", empty.enc()).with("op", "try_from_vector").with("grow", grow).with("oty", oty).with("index", 0).with("pat", pat), "W-conversions-beyond-capacity");
+                }
             }
         }
         // growth from len in {cap-2 .. cap} (and a few lower lengths) by {1, 2, W, cap}
@@ -346,7 +366,9 @@ pub fn run(ctx: &mut Ctx) {
                                 if op != "insert" && index != 0 {
                                     continue;
                                 }
-                                judge(ctx, &Case::new("overflow").with("a", a.enc()).with("op", op).with("grow", grow).with("oty", oty).with("index", index), "W-growth-past-capacity");
+                                for pat in 0..4 {
+                                    judge(ctx, &Case::new("overflow").with("a", a.enc()).with("op", op).with("grow", grow).with("oty", oty).with("index", index).with("pat", pat), "W-growth-past-capacity");
+                                }
                             }
                         }
                     }
@@ -371,4 +393,5 @@ pub const REQUIRED_C19: &[&str] = &[
     "op:zeros", "op:ones", "op:from_bytes", "op:from_binary", "op:from_hex", "op:read", "op:try_from_uint", "op:try_from_slice",
     "op:try_from_vector", "op:push", "op:resize", "op:append", "op:prepend", "op:insert", "op:extend", "op:collect",
     "op:get", "op:set", "op:copy_range_end", "op:split_off", "growth-at-len==capacity", "valid-edit-walks",
+    "fill-pattern:0", "fill-pattern:1", "fill-pattern:2", "fill-pattern:3",
 ];
